@@ -74,7 +74,13 @@ def run(tier):
         tpats.append("./ex/" + name)
     work = vlib.mktmp("c09w-")
     scratch = os.path.join(work, "scratch")
-    jobs = [(ws, spats, "S"), (ws, gpats, "G"), (ws, tpats, "R")]
+    # hand-collected shapes (hunters' failing inputs, generalised): proposals in unusual syntactic and type contexts
+    shutil.copytree(os.path.join(vlib.VERIF, "corpus", "proposal_shapes"), os.path.join(ws, "pshapes"), ignore=shutil.ignore_patterns("*.md"))
+    ppats = sorted("./pshapes/" + d for d in os.listdir(os.path.join(ws, "pshapes")))
+    rc, so, se = vlib.sh([vw, "loadcheck", ws] + ppats, timeout=600)
+    if "bad 0" not in so:
+        vlib.harness_fail("proposal shape corpus does not type-check: " + so[-800:] + se[-400:])
+    jobs = [(ws, spats, "S"), (ws, gpats, "G"), (ws, tpats, "R"), (ws, ppats, "P")]
     scanlib.run_sharded(res, vw, "c09", jobs, {"C09"}, per_task_extra=lambda idx, label, w: ["-scratch", os.path.join(scratch, label)], timeout=3000)
     # end-to-end: go-critic-analysis -fix on scratch copies; then parse, type-check, compare outside the edit ranges
     e2dir = os.path.join(ws, "fixe2e")
